@@ -1,3 +1,4 @@
+"""usage: verify_one.py <contracts module> <prop> <qualname>...   verify single functions under their contracts (development aid)"""
 import sys; sys.path.insert(0,'/verif')
 from pyvc import symexec, solve, extract
 from pyvc.registry import REG
@@ -5,8 +6,9 @@ import importlib
 mod = importlib.import_module(sys.argv[1]); prop=sys.argv[2]
 import contracts.lammps_table, contracts.potential, contracts.dlpoly_table
 for q in sys.argv[3:]:
-    c = REG.get(mod.FILE, q)
-    ex = symexec.verify(prop, c, track_raises=c.on_raise is not None)
+    cands = [c for (f, qn), c in REG.contracts.items() if qn == q and not c.external and f != '<ext>']
+    c = REG.get(getattr(mod, 'FILE', ''), q) or (cands[0] if cands else None)
+    ex = symexec.verify(prop, c, track_raises=(c.on_raise is not None or c.raises_when is not None))
     solve.discharge_all(ex.obls)
     for o in ex.obls:
         if o.result!='proved' or o.solver_s>0.5: print(o.name, o.result, o.backend, round(o.solver_s,3), o.reason or '')
